@@ -1033,6 +1033,157 @@ theorem handleDataMsg_spec (w : World) (k j : Nat) (s : Trxd.TxMsg) (r src : Trx
           · rw [hrm'] at hn; cases hn
         · exact absurd hn hd
 
+/-! ### the sequence of calls made by `forwardMsg` -/
+
+/-- `handleSeq`: one call per listed transceiver; every call sees its own and the sender's
+record exactly as they were at the start (earlier calls touch other transceivers only) -/
+theorem handleSeq_calls (j : Nat) (m : Trxd.TxMsg) (w0 : World) (P : Nat → List Dgram → Prop)
+    (step : ∀ (w : World) (k : Nat) (r : Trx) (rx : Trxd.RxMsg) (w' : World) (dk : List Dgram),
+      w.trxs[k]? = w0.trxs[k]? → w.trxs[j]? = w0.trxs[j]? → w.trxs[k]? = some r →
+      m.trans (some r.hdrVer) = .ok rx → handleDataMsg w k j m rx = .ok (w', dk) → P k dk) :
+    ∀ (ks : List Nat) (w : World), ks.Nodup → j ∉ ks →
+      (∀ i, i ∈ ks ∨ i = j → w.trxs[i]? = w0.trxs[i]?) →
+      ∀ (w' : World) (out : List Dgram), handleSeq j m w ks = .ok (w', out) →
+        ∃ calls : List (Nat × List Dgram), calls.map Prod.fst = ks ∧
+          out = (calls.map Prod.snd).flatten ∧ ∀ c ∈ calls, P c.1 c.2 := by
+  intro ks
+  induction ks with
+  | nil =>
+    intro w _ _ _ w' out h
+    simp only [handleSeq] at h
+    injection h with h; injection h with _ h
+    exact ⟨[], rfl, by rw [← h]; rfl, fun c hc => by cases hc⟩
+  | cons k ks ih =>
+    intro w hnd hj hsame w' out h
+    rw [List.nodup_cons] at hnd
+    simp only [handleSeq] at h
+    split at h
+    · cases h
+    · rename_i r hr
+      split at h
+      · cases h
+      · rename_i rx hrx
+        split at h
+        · cases h
+        · rename_i w1 dk hh
+          split at h
+          · cases h
+          · rename_i w2 ds' hrest
+            injection h with h; injection h with h1 h2
+            subst h1; subst h2
+            have hkj : k ≠ j := fun e => hj (by rw [← e]; exact List.mem_cons_self ..)
+            have hPk : P k dk := step w k r rx w1 dk (hsame k (.inl (List.mem_cons_self ..)))
+              (hsame j (.inr rfl)) hr hrx hh
+            have hsame' : ∀ i, i ∈ ks ∨ i = j → w1.trxs[i]? = w0.trxs[i]? := by
+              intro i hi
+              have hik : i ≠ k := by
+                rcases hi with hi | hi
+                · exact fun e => hnd.1 (by rw [← e]; exact hi)
+                · rw [hi]; exact fun e => hkj e.symm
+              rw [handleDataMsg_others _ _ _ _ _ _ _ hh i hik]
+              exact hsame i (hi.elim (fun h => .inl (List.mem_cons_of_mem _ h)) .inr)
+            obtain ⟨calls, c1, c2, c3⟩ := ih w1 hnd.2 (fun h => hj (List.mem_cons_of_mem _ h)) hsame' _ _ hrest
+            refine ⟨(k, dk) :: calls, by simp only [List.map_cons, c1], by
+              simp only [List.map_cons, List.flatten_cons, c2], ?_⟩
+            intro c hc
+            rcases List.mem_cons.1 hc with hc | hc
+            · rw [hc]; exact hPk
+            · exact c3 c hc
+
+/-! ### counting datagrams per DATA peer -/
+
+theorem distinct_ports (w : World) (hd : Spec.DistinctDataPorts w) (i k : Nat) (ti tk : Trx)
+    (hi : w.trxs[i]? = some ti) (hk : w.trxs[k]? = some tk) (hne : i ≠ k) :
+    ¬ (ti.addr = tk.addr ∧ ti.dataPort = tk.dataPort) := by
+  intro ⟨h1, h2⟩
+  unfold Spec.DistinctDataPorts at hd
+  have hil : i < w.trxs.length := by
+    rcases Nat.lt_or_ge i w.trxs.length with h | h
+    · exact h
+    · rw [List.getElem?_eq_none_iff.2 h] at hi; cases hi
+  have hkl : k < w.trxs.length := by
+    rcases Nat.lt_or_ge k w.trxs.length with h | h
+    · exact h
+    · rw [List.getElem?_eq_none_iff.2 h] at hk; cases hk
+  have ei : w.trxs[i] = ti := by rw [List.getElem?_eq_getElem hil] at hi; injection hi
+  have ek : w.trxs[k] = tk := by rw [List.getElem?_eq_getElem hkl] at hk; injection hk
+  have := (List.getElem_inj (i := i) (j := k) (h₀ := by rw [List.length_map]; exact hil)
+    (h₁ := by rw [List.length_map]; exact hkl) hd).1 (by
+      simp only [List.getElem_map, ei, ek, Prod.mk.injEq]
+      refine ⟨h1, ?_⟩
+      simp only [Trx.dataPort] at h2
+      omega)
+  exact hne this
+
+theorem toDataPeer_iff (ti tk : Trx) (b : List Nat) :
+    Spec.toDataPeer ti (dataDgram tk b) = true ↔ (ti.addr = tk.addr ∧ ti.dataPort = tk.dataPort) := by
+  simp only [Spec.toDataPeer, dataDgram, Trx.dataPort, Trx.dataRemote, Bool.and_eq_true, beq_iff_eq]
+  constructor
+  · rintro ⟨⟨h1, _⟩, h3⟩
+    exact ⟨h3.symm, by omega⟩
+  · rintro ⟨h1, h2⟩
+    exact ⟨⟨by omega, by omega⟩, h1.symm⟩
+
+theorem deliveredTo_own (t : Trx) (dk : List Dgram) (h : OneToPeer t dk) :
+    Spec.deliveredTo t dk = dk.length := by
+  rcases h with h | ⟨b, h⟩
+  · rw [h]; rfl
+  · rw [h]
+    simp only [Spec.deliveredTo, List.countP_cons, toDataPeer_dataDgram, List.countP_nil, if_true,
+      List.length_cons, List.length_nil]
+
+theorem deliveredTo_other (w : World) (hd : Spec.DistinctDataPorts w) (i k : Nat) (ti tk : Trx)
+    (hi : w.trxs[i]? = some ti) (hk : w.trxs[k]? = some tk) (hne : i ≠ k) (dk : List Dgram)
+    (h : OneToPeer tk dk) : Spec.deliveredTo ti dk = 0 := by
+  rcases h with h | ⟨b, h⟩
+  · rw [h]; rfl
+  · rw [h]
+    have := distinct_ports w hd i k ti tk hi hk hne
+    have hf : Spec.toDataPeer ti (dataDgram tk b) = false := by
+      cases hx : Spec.toDataPeer ti (dataDgram tk b)
+      · rfl
+      · exact absurd ((toDataPeer_iff ti tk b).1 hx) this
+    simp only [Spec.deliveredTo, List.countP_cons, hf, List.countP_nil, Bool.false_eq_true, if_false]
+
+/-- datagrams for `i`'s DATA peer in the concatenated output of a sequence of calls -/
+theorem deliveredTo_calls (w : World) (hd : Spec.DistinctDataPorts w) (i : Nat) (ti : Trx)
+    (hi : w.trxs[i]? = some ti) :
+    ∀ calls : List (Nat × List Dgram),
+      (∀ c ∈ calls, ∃ r, w.trxs[c.1]? = some r ∧ OneToPeer r c.2) →
+      (i ∉ calls.map Prod.fst → Spec.deliveredTo ti (calls.map Prod.snd).flatten = 0) ∧
+      ((calls.map Prod.fst).Nodup → ∀ dk, (i, dk) ∈ calls →
+        Spec.deliveredTo ti (calls.map Prod.snd).flatten = dk.length) := by
+  intro calls
+  induction calls with
+  | nil => intro _; exact ⟨fun _ => rfl, fun _ dk h => by cases h⟩
+  | cons c calls ih =>
+    intro hall
+    obtain ⟨r, hr, hone⟩ := hall c (List.mem_cons_self ..)
+    obtain ⟨ih0, ih1⟩ := ih (fun c' hc' => hall c' (List.mem_cons_of_mem _ hc'))
+    have hsplit : Spec.deliveredTo ti ((c :: calls).map Prod.snd).flatten =
+        Spec.deliveredTo ti c.2 + Spec.deliveredTo ti (calls.map Prod.snd).flatten := by
+      simp only [Spec.deliveredTo, List.map_cons, List.flatten_cons, List.countP_append]
+    constructor
+    · intro hni
+      simp only [List.map_cons, List.mem_cons, not_or] at hni
+      rw [hsplit, ih0 hni.2, deliveredTo_other w hd i c.1 ti r hi hr hni.1 c.2 hone]
+    · intro hnd dk hmem
+      simp only [List.map_cons, List.nodup_cons] at hnd
+      rcases List.mem_cons.1 hmem with hc | hc
+      · have hci : c.1 = i := by rw [← hc]
+        have hcd : c.2 = dk := by rw [← hc]
+        rw [hci] at hr hnd
+        rw [hi] at hr; injection hr with hr; subst hr
+        rw [hsplit, ih0 hnd.1, hcd] at *
+        rw [deliveredTo_own ti dk hone]; rfl
+      · have hne : i ≠ c.1 := by
+          intro e
+          apply hnd.1
+          rw [← e]
+          exact List.mem_map.2 ⟨(i, dk), hc, rfl⟩
+        rw [hsplit, deliveredTo_other w hd i c.1 ti r hi hr hne c.2 hone, ih1 hnd.2 dk hc]
+        omega
+
 end OsmoVerif.World
 
 /-! ### codec facts about `RxMsg.validate` / `RxMsg.genMsg`
@@ -1321,3 +1472,93 @@ theorem genMsg_legacy (m : RxMsg) :
   repeat' split
   all_goals simp_all
 end OsmoVerif.World.Codec
+
+namespace OsmoVerif.World
+open OsmoVerif
+
+/-! ### `forwardMsg` against the property-level description -/
+
+theorem getElem?_mem {α : Type} (l : List α) (i : Nat) (a : α) (h : l[i]? = some a) : a ∈ l :=
+  List.mem_of_getElem? h
+
+theorem recipients_nodup (w : World) (j fn : Nat) : (Spec.recipients w j fn).Nodup :=
+  List.Nodup.sublist List.filter_sublist List.nodup_range
+
+theorem recipients_sorted (w : World) (j fn : Nat) :
+    (Spec.recipients w j fn).Pairwise (· < ·) :=
+  List.Pairwise.filter _ List.pairwise_lt_range
+
+theorem mem_recipients (w : World) (j fn k : Nat) :
+    k ∈ Spec.recipients w j fn ↔ k < w.trxs.length ∧ Spec.isRecipient w j fn k = true := by
+  simp only [Spec.recipients, List.mem_filter, List.mem_range]
+
+theorem sender_not_recipient (w : World) (j fn : Nat) : j ∉ Spec.recipients w j fn := by
+  intro h
+  have := ((mem_recipients w j fn j).1 h).2
+  simp [Spec.isRecipient] at this
+
+/-- the calls `forwardMsg` makes: exactly one per member of `Spec.recipients`, in list order; the
+output is the concatenation of the calls' outputs, each of which is as `CallSpec` demands -/
+theorem forwardMsg_calls (w : World) (j : Nat) (s : Trxd.TxMsg) (src : Trx) (fnI : Int)
+    (bits : List Nat) (w' : World) (out : List Dgram)
+    (hj : w.trxs[j]? = some src) (hfn : s.fn = some fnI) (hb : s.burst = some bits)
+    (hbits : ∀ b ∈ bits, b < 256) (hok : Spec.FreqOk w fnI.toNat) (hwf : ∀ t ∈ w.trxs, Spec.DropWF t)
+    (h : forwardMsg w j s = .ok (w', out)) :
+    ∃ calls : List (Nat × List Dgram),
+      calls.map Prod.fst = Spec.recipients w j fnI.toNat ∧
+      out = (calls.map Prod.snd).flatten ∧
+      ∀ c ∈ calls, ∃ r, w.trxs[c.1]? = some r ∧ CallSpec r src s fnI bits c.2 ∧ OneToPeer r c.2 := by
+  rw [forwardMsg_eq w j s src fnI hj hfn hok] at h
+  refine handleSeq_calls j (fwdInput src s) w
+    (fun k dk => ∃ r, w.trxs[k]? = some r ∧ CallSpec r src s fnI bits dk ∧ OneToPeer r dk) ?_
+    _ w (recipients_nodup ..) (sender_not_recipient _ _ _) (fun _ _ => rfl) w' out h
+  intro w1 k r rx w2 dk hk1 hj1 hr hrx hh
+  have hr0 : w.trxs[k]? = some r := by rw [← hk1]; exact hr
+  have hsrc : w1.trxs[j]? = some src := by rw [hj1]; exact hj
+  obtain ⟨cs, _⟩ := handleDataMsg_spec w1 k j s r src fnI bits rx w2 dk hr hsrc
+    (hwf r (getElem?_mem _ _ _ hr0)) hfn hb hbits hrx hh
+  obtain ⟨r', _, hr', _, hone, _⟩ := handleDataMsg_ok _ _ _ _ _ _ _ hh
+  rw [hr] at hr'; injection hr' with hr'; subst hr'
+  exact ⟨r, hr0, cs, hone⟩
+
+/-- per transceiver: the datagrams of the output that go to its DATA peer are exactly the output
+of its own call (none when it is not a recipient) -/
+theorem forwardMsg_delivered (w : World) (j : Nat) (s : Trxd.TxMsg) (src : Trx) (fnI : Int)
+    (bits : List Nat) (w' : World) (out : List Dgram)
+    (hj : w.trxs[j]? = some src) (hfn : s.fn = some fnI) (hb : s.burst = some bits)
+    (hbits : ∀ b ∈ bits, b < 256) (hok : Spec.FreqOk w fnI.toNat) (hwf : ∀ t ∈ w.trxs, Spec.DropWF t)
+    (hd : Spec.DistinctDataPorts w)
+    (h : forwardMsg w j s = .ok (w', out)) (k : Nat) (tk : Trx) (hk : w.trxs[k]? = some tk) :
+    (k ∉ Spec.recipients w j fnI.toNat → Spec.deliveredTo tk out = 0) ∧
+    (k ∈ Spec.recipients w j fnI.toNat →
+      ∃ dk, CallSpec tk src s fnI bits dk ∧ OneToPeer tk dk ∧ Spec.deliveredTo tk out = dk.length ∧
+        ∀ d ∈ dk, d ∈ out) := by
+  obtain ⟨calls, c1, c2, c3⟩ := forwardMsg_calls w j s src fnI bits w' out hj hfn hb hbits hok hwf h
+  obtain ⟨d0, d1⟩ := deliveredTo_calls w hd k tk hk calls
+    (fun c hc => by obtain ⟨r, hr, _, hone⟩ := c3 c hc; exact ⟨r, hr, hone⟩)
+  rw [← c1]
+  refine ⟨fun hn => by rw [c2]; exact d0 hn, fun hm => ?_⟩
+  obtain ⟨c, hc, hck⟩ := List.mem_map.1 hm
+  obtain ⟨r, hr, hcs, hone⟩ := c3 c hc
+  rw [hck, hk] at hr; injection hr with hr; subst hr
+  refine ⟨c.2, hcs, hone, ?_, ?_⟩
+  · rw [c2]
+    exact d1 (by rw [c1]; exact recipients_nodup ..) c.2 (by rw [← hck]; exact hc)
+  · intro d hd'
+    rw [c2]
+    exact List.mem_flatten.2 ⟨c.2, List.mem_map.2 ⟨c, hc, rfl⟩, hd'⟩
+
+/-- `DATAInterface.send_msg`: one datagram iff the message validates -/
+theorem dgramsOf_genMsg (r : Trx) (m : Trxd.RxMsg) (l : Bool) :
+    (m.validate = .ok () ∧ ∃ b, m.genMsg l = .ok b ∧ dgramsOf r (m.genMsg l) = [dataDgram r b]) ∨
+    (m.validate ≠ .ok () ∧ dgramsOf r (m.genMsg l) = []) := by
+  cases hv : m.validate with
+  | ok u =>
+    obtain ⟨b, hb⟩ := Codec.genMsg_ok_of_validate m l hv
+    exact .inl ⟨rfl, b, hb, by rw [hb]; rfl⟩
+  | error e =>
+    refine Or.inr ⟨?_, ?_⟩
+    · intro h; cases h
+    rw [Codec.genMsg_err_of_validate m l e hv]; rfl
+
+end OsmoVerif.World
